@@ -62,6 +62,30 @@ def handle (args : List String) (_impl : List String) : String :=
         if dmin ≤ 0 then s!"bad {what}: non-positive diagonal term"
         else if checkPSD (-(pow2 (-40) * dmin)) S then "ok" else s!"bad {what}: matrix is not positive definite (exact LDLt has a non-positive pivot)"
     | _, _ => "bad-op"
+  -- s fit <what> <ranges> <constraints> <usable flags>: the model returned by the automatic fitting
+  --   ranges: all strictly positive;  constraints: `;`-separated `U,value,bound` | `L,…` | `E,…` | `S,a,b` (two values that must be equal);
+  --   usable: string of 0/1 flags (saved, reloaded, kriging ran) - all must be 1
+  | ["fit", what, ranges, cons, usable] =>
+    match parseQs? ranges with
+    | none => "bad-op"
+    | some rs =>
+      if rs.any (· ≤ 0) then s!"bad fit {what}: a fitted range is not strictly positive ({fmtQs rs})" else
+      let items := if cons = "-" then [] else cons.splitOn ";"
+      let tolOf := fun (b : Q) => pow2 (-30) * maxQ 1 (absQ b)
+      let bad := items.find? fun it =>
+        match it.splitOn "," with
+        | [k, v, b] =>
+          match parseQ? v, parseQ? b with
+          | some v, some b =>
+            if k = "U" then v > b + tolOf b
+            else if k = "L" then v < b - tolOf b
+            else if k = "E" || k = "S" then absQ (v - b) > tolOf b
+            else true
+          | _, _ => true
+        | _ => true
+      match bad with
+      | some it => s!"bad fit {what}: constraint violated by the returned model ({it})"
+      | none => if usable.toList.all (· == '1') then "ok" else s!"bad fit {what}: the returned model is not usable (saved/reloaded/kriging = {usable})"
   | ["bound", what, c0, ch, chn, gam] =>
     match parseQ? c0, parseQ? ch, parseQ? chn, parseQ? gam with
     | some c0, some ch, some chn, some gam =>
